@@ -200,7 +200,7 @@ def run(ck):
                       "subset at every height of a sweep around maxHeightCertified, maxHeightPrecommitted, the next parameter height and the "
                       "tip; every single-bit flip, bitmap length change, every other sweep height, and six signature tamperings of accepted "
                       "commits; pools filled with every non-empty signer subset then GetAggregateCommit -> verify; random sequences of gossip "
-                      "messages (valid/invalid/duplicate/undecodable), Certify ranges, Cleanup/Select/Upgrade, GetAggregateCommit; then the history goes "
+                      "messages (valid/invalid/duplicate/undecodable; on long chains two-commit messages straddling a validator-set change, both orders), Certify ranges, Cleanup/Select/Upgrade, GetAggregateCommit; then the history goes "
                       "on in further phases: 1-9 more blocks (finality and certified height move, further parameter changes), the pool carried "
                       "over, more pool operations under the new view; plus reorg scenarios on the full Executer. "
                       "Non-trivial/distinct: verify ops distinct by (kind, result, bitmap, height relative to the two BFT heights); "
